@@ -893,6 +893,14 @@ def check_C16(rep, scr, tier, seed):
         with open(cfb, 'w') as f:
             for x in bs: f.write(x.line() + '\n')
         om = vlib.run_model(md, vlib.model_args(consts), cfb)
+        # qsort_s: the extracted smoothsort model (coq/ModSort.v) on the same keys: final arrangement and comparator-call trace
+        qs = [x for x in cases if x.func == 'qsort_s' and x.meta['nmemb'] > 0]
+        sm_in = '\n'.join('%s %d %s' % (x.id, x.meta['nmemb'], ' '.join(str(int.from_bytes(x.blocks[0][1][i * x.meta['size']:i * x.meta['size'] + min(x.meta['size'], 4)], 'big')) for i in range(x.meta['nmemb']))) for x in qs) + '\n'
+        rc_, o_, e_ = vlib.sh([os.path.dirname(md) + '/sort_model'], inp=sm_in, timeout=900)
+        smod = {}
+        for l in o_.split('\n'):
+            f = l.split()
+            if len(f) >= 2: smod[f[0]] = None if f[1] == 'NONE' else dict(z.split('=', 1) for z in f[1:])
         for x in cases:
             a = oi.get(x.id); m = x.meta
             rep.evals += 1; rep.count('%s/size=%d/%s' % (x.func, m['size'], var))
@@ -910,6 +918,19 @@ def check_C16(rep, scr, tier, seed):
                     if rv != '0': fails.append(('error-return', 'qsort_s returned %s on valid arguments' % rv))
                     elif sorted(before) != sorted(after): fails.append(('not-a-permutation', 'result is not a permutation of the input elements (nmemb %d, size %d)' % (nm, size)))
                     elif any(after[i][:k] > after[i + 1][:k] for i in range(nm - 1)): fails.append(('not-sorted', 'result is not ordered by the comparator (nmemb %d, size %d)' % (nm, size)))
+                    sm = smod.get(x.id, 'missing')
+                    if sm == 'missing': rep.violation('sort model produced no outcome', {'key': 'nooutcome-sort', 'case': x.to_json(), 'no_failing_input': True})
+                    elif not fails:
+                        rep.extra['qsort_model_compared'] = rep.extra.get('qsort_model_compared', 0) + 1
+                        if sm is None: why = 'the model leaves the array (answers None) but the implementation completed'
+                        else:
+                            want = [before[int(i)] for i in sm['perm'].split(',')]
+                            why = None
+                            if a.fields.get('tr') != sm['tr']: why = 'comparator calls differ: implementation %s.. model %s..' % (a.fields.get('tr', '?')[:80], sm['tr'][:80])
+                            elif want != after: why = 'final arrangement differs from the model'
+                        if why:
+                            class B: pass
+                            b = B(); b.raw = 'model: %s' % (str(sm)[:400]); rep.mismatches.append((x, a, b, var)); rep.extra.setdefault('qsort_mismatch', why)
                 if x.func == 'bsearch_s':
                     present = m['key'] in m['vals']
                     if rv == 'N':
@@ -925,8 +946,8 @@ def check_C16(rep, scr, tier, seed):
     report_proofs(rep, pr, 'C16')
     report_mismatches(rep, 'T1 (bsearch_s)')
     rep.trusted = TRUSTED_COMMON + ['comparator of the drivers: memcmp over the first min(size,4) bytes, checks context and pointer provenance of every call',
-                                    'qsort_s (musl smoothsort) is NOT modelled in Coq in this revision: permutation/order/bounds are examined on the implementation only (partial)']
-    rep.extra['partial'] = 'qsort_s: no theorem yet; bsearch_s: full'
+                                    'qsort_s: the Coq model (ModSort.v) abstracts elements to values of a type A, the two-word bit vector p to a list of booleans, lp[] to Leonardo numbers in element units and the 256-byte chunking of cycle() to one assignment per element; the tie is the exact sequence of comparator calls (pairs of element indices) and the final arrangement, compared with the implementation on every case; the argument checks of _qsort_s_chk are not modelled', 'sort_model.ml (reader/printer of the extracted smoothsort)']
+    rep.extra['partial'] = 'qsort_s: permutation, in-bounds and sign-dependence proved for every array; order of the result proved for nmemb <= 7 only (unbounded sortedness of smoothsort not proved); bsearch_s: full'
     return rep.finish('qsort_s: all key patterns over {0,1,2} for nmemb <= 6..8 (sampled above 60 patterns), random arrays up to 300 elements, element sizes 1..513 incl. 255/256/257; bsearch_s: sorted arrays of 0..11 elements x sizes 1,4,7 x 20 keys (present and absent); non-trivial = distinct (function, size, nmemb, result, build)',
                       'make -C /verif/coq Properties_C16.vo + harness/check.py C16')
 REGISTRY['C16'] = check_C16
